@@ -446,11 +446,13 @@ def main(tier, seed):
                        "segment figures tainted (…734561/2/3) must not occur in any request text; timing rule; end statistics = in-process replay of the recorded decisions; one trace per scenario repeated over a real loop-back http.server. "
                        "states = distinct reference-model states; non-trivial = distinct (scenario, decision/outcome counters) classes")
     scs = []
-    wls = [[("B", 0, "chain2", ("s2", "s1")), ("Q", 2, "single", ("s1",))], [("I", 0, "fork", ("s1",)), ("B", 1, "single", ("s3",))]]
+    wls = [[("B", 0, "chain2", ("s2", "s1")), ("Q", 2, "single", ("s1",))], [("I", 0, "fork", ("s1",)), ("B", 1, "single", ("s3",))],
+           # a quiet stretch: one pipeline whose operators cross boundaries inside a long multi-operator container, nothing else arrives
+           [("B", 0, "chain3", ("s2", "s2", "s1"))]]
     for tps in ((1, 10) if q else (1, 2, 10)):
         for poll in (0, 0.5, 1, 2.5):
             for pools, multi in (((1, True), (2, False)) if q else ((1, True), (2, False), (2, True))):
-                for wl in (wls[:1] if q and tps == 10 else wls):
+                for wl in ((wls[:1] + wls[2:]) if q and tps == 10 else wls):
                     scs.append(scenario(tps, poll, pools, multi, wl))
     res = pmap(explore, [(sc, bound) for sc in scs], chunks=1)
     for sc, acc in zip(scs, res):
